@@ -64,3 +64,7 @@ func (srv *Memberlist) VerifWhenJoined(member Member) { srv.whenJoined(member) }
 // VerifWhenLeft calls the leave event handler of the Memberlist, like
 // memberlist's NotifyLeave event does.
 func (srv *Memberlist) VerifWhenLeft(member Member) { srv.whenLeft(member) }
+
+// VerifMemberID is memberid(): the identity of a member address in the member
+// table.
+func VerifMemberID(addr *net.UDPAddr) string { return memberid(addr) }
